@@ -216,6 +216,9 @@ package loadaware
 //@ spec func cachedOK(n *nodeInfo, p *podAssignCache) bool = forall u types.UID :: {n.podInfos[u]} has(n.podInfos, u) ==> n.podInfos[u] != nil && n.podInfos[u].pod != nil && (n.podInfos[u].estimated != nil ==> len(n.podInfos[u].estimated) == len(p.vectorizer) && allocated(n.podInfos[u].estimated))
 //@ spec func sysBase(p *podAssignCache, metric *slov1alpha1.NodeMetric, j int) int = (metric.Status.NodeMetric != nil && p.args.ProdUsageIncludeSys) ? resVal(p.vectorizer[j], metric.Status.NodeMetric.SystemUsage.ResourceList) : 0
 //@ spec func nodeUsageIs(n *nodeInfo, p *podAssignCache, metric *slov1alpha1.NodeMetric) bool = (metric.Status.NodeMetric == nil ==> n.nodeUsage == nil) && (metric.Status.NodeMetric != nil ==> n.nodeUsage != nil && len(n.nodeUsage) == len(p.vectorizer) && !isSum(n, arr(n.nodeUsage)) && (forall j int :: 0 <= j && j < len(p.vectorizer) ==> n.nodeUsage[j] == resVal(p.vectorizer[j], metric.Status.NodeMetric.NodeUsage.ResourceList)))
+// A pod counts as reported exactly when the report has a non-nil entry for it whose usage list is not empty (an entry with
+// an empty list means "not collected": the pod keeps being estimated).
+//@ spec func repEntry(metric *slov1alpha1.NodeMetric, i int, k NamespacedName) bool = metric.Status.PodsMetric[i] != nil && len(metric.Status.PodsMetric[i].PodUsage.ResourceList) > 0 && k.Namespace == metric.Status.PodsMetric[i].Namespace && k.Name == metric.Status.PodsMetric[i].Name
 //@ func (*nodeInfo).AddOrUpdateNodeMetric [C08]
 //@   requires n != nil && p != nil && p.args != nil && metric != nil && prioCfgOK() && cachedOK(n, p)
 //@   ensures #deleted: old(n.deleted) ==> !result && calls("addPod") == 0
@@ -229,6 +232,8 @@ package loadaware
 //@   ensures #agg: result ==> (forall a aggUsageKey :: {n.aggUsages[a]} n.aggUsages[a] != nil ==> len(n.aggUsages[a]) == len(p.vectorizer))
 //@   ensures #prodbase: result && len(n.podInfos) == 0 ==> (forall j int :: 0 <= j && j < vlen(n) ==> n.prodUsage[j] == sysBase(p, metric, j))
 //@   ensures #time: result ==> n.updateTime == (metric.Status.UpdateTime != nil ? metric.Status.UpdateTime.Time : old(n.updateTime)) && n.reportInterval == ((metric.Spec.CollectPolicy == nil || metric.Spec.CollectPolicy.ReportIntervalSeconds == nil) ? DefaultNodeMetricReportInterval : deref(metric.Spec.CollectPolicy.ReportIntervalSeconds) * 1000000000)
+//@   ensures #reported: result ==> (forall k NamespacedName :: has(n.podUsages, k) ==> (exists i int :: 0 <= i && i < len(metric.Status.PodsMetric) && repEntry(metric, i, k)))
+//@   ensures #collected: result ==> (forall i int, k NamespacedName :: 0 <= i && i < len(metric.Status.PodsMetric) && repEntry(metric, i, k) ==> has(n.podUsages, k))
 //@   ensures #pods: n.podInfos == old(n.podInfos) && (forall u types.UID :: has(n.podInfos, u) == old(has(n.podInfos, u)) && n.podInfos[u] == old(n.podInfos[u]))
 //@   assert before call addPod: exists u types.UID :: has(n.podInfos, u) && n.podInfos[u] == $arg0
 //@   modifies n.nodeMetric, n.reportInterval, n.updateTime, n.podUsages, n.prodPods, n.nodeUsage, n.prodUsage, n.aggUsages, n.nodeDelta, n.prodDelta, n.nodeEstimated, n.nodeDeltaPods, n.prodDeltaPods, n.nodeEstimatedPods, allelems(keySlices())
@@ -237,6 +242,9 @@ package loadaware
 //@   loop 3 invariant #agg: aggUsages != nil && fresh(aggUsages) && (forall a aggUsageKey :: {aggUsages[a]} aggUsages[a] != nil ==> len(aggUsages[a]) == len(p.vectorizer))
 //@   loop 4 invariant #maps: podUsages != nil && prodPods != nil && fresh(podUsages) && fresh(prodPods)
 //@   loop 4 invariant #usages: forall k NamespacedName :: has(podUsages, k) ==> podUsages[k] != nil && len(podUsages[k]) == len(p.vectorizer) && fresh(podUsages[k]) && arr(podUsages[k]) != arr(prodUsage)
+//@   loop 4 invariant #idx: 0 <= $i && $i <= len(metric.Status.PodsMetric)
+//@   loop 4 invariant #reported: forall k NamespacedName :: has(podUsages, k) ==> (exists i int :: 0 <= i && i < $i && repEntry(metric, i, k))
+//@   loop 4 invariant #collected: forall i int, k NamespacedName :: 0 <= i && i < $i && repEntry(metric, i, k) ==> has(podUsages, k)
 //@   loop 4 invariant #prod: forall k NamespacedName :: prodPods.Has(k) ==> has(podUsages, k)
 //@   loop 5 invariant #shape: sumsOK(n) && reportOK(n) && podsOK(n) && vlen(n) == len(p.vectorizer)
 //@   loop 5 invariant #every: calls("addPod") == $n
